@@ -406,6 +406,11 @@ def _relative_rois(
     _XY = tr.back(unstack_xy(gbox_boundary(dst, pts_per_side)))
     roi_src = roi_from_points(stack_xy(_XY), src.shape, padding, align=align)
 
+    if align is not None and not roi_is_empty(roi_src):
+        # alignment must not turn an empty (padded) overlap into a non-empty one
+        if roi_is_empty(roi_from_points(stack_xy(_XY), src.shape, padding)):
+            roi_src = np.s_[0:0, 0:0]
+
     if roi_is_empty(roi_src):
         return (roi_src, np.s_[0:0, 0:0])
 
